@@ -169,12 +169,13 @@ class Result:
         self.kernel_errors: List[str] = []
         self.virtual_seconds = 0.0
         self.post_run = None
+        self.pause_log: List[tuple] = []
 
 
 class Driver:
     def __init__(self, exp, chooser, script, on_launch=None, max_decisions=4000, max_items=60000,
                  stuck_after_idle_waits=80, do_restart_sources=None, on_component_run=None, memoized=(),
-                 post_run=None, delay_finished=None, pass_at_lock=None):
+                 post_run=None, delay_finished=None, pass_at_lock=None, pauses=None):
         self.exp = exp
         self.chooser = chooser
         self.script = script
@@ -206,6 +207,11 @@ class Driver:
         self.pass_at_lock = pass_at_lock
         self._armed = False
         self._in_pass = False
+        # [(start, duration)] in virtual seconds since the start of the run: Controller.sleep() at `start`, and - the way
+        # elaunch's pause/wake-up cycle does it - Controller.wake_up() `duration` later, but not before the scheduler
+        # reported that it sleeps (polled once a second)
+        self.pauses = [tuple(p) for p in (pauses or [])]
+        self.pause_log: List[tuple] = []
 
     # -- hooks ------------------------------------------------------------------------------------
     def _on_launch(self, ref, job, n, reason):
@@ -321,6 +327,30 @@ class Driver:
             self.controller = control.Controller(exp, do_restart_sources=self.do_restart_sources)
             ev = HarnessEvent(self)
             self.controller._event_scheduler = ev
+            if self.pauses:
+                pause_pool = K.DetPool(None, "pause")
+                ctrl = self.controller
+
+                def go_to_sleep(duration):
+                    def act(sch=None, st_=None):
+                        if ctrl._start_sleeping:          # still paused by the previous cycle: one cycle at a time
+                            pause_pool.schedule_relative(1.0, act)
+                            return
+                        ctrl.sleep()
+                        drv.pause_log.append(("sleep", (KERNEL.clock - K.EPOCH).total_seconds()))
+                        # the same (elaunch) thread wakes the controller up later: never before sleep() was called
+                        pause_pool.schedule_relative(float(duration), wake)
+                    return act
+
+                def wake(sch=None, st_=None):
+                    if not ctrl.is_sleeping:
+                        pause_pool.schedule_relative(1.0, wake)
+                        return
+                    postponed = len(ctrl._component_finished_while_sleeping)
+                    ctrl.wake_up()
+                    drv.pause_log.append(("wake_up", (KERNEL.clock - K.EPOCH).total_seconds(), postponed))
+                for start, duration in self.pauses:
+                    pause_pool.schedule_relative(float(start), go_to_sleep(duration))
             if self.pass_at_lock is not None:
                 self.controller.comp_lock = _PreemptLock(self.controller.comp_lock, self.controller)
             if self.memoized:
@@ -368,6 +398,7 @@ class Driver:
             res.states = {r: c.state for r, c in self.components.items()}
             if self.post_run is not None and res.aborted is None:
                 res.post_run = self.post_run(self)
+            res.pause_log = list(self.pause_log)
             res.launch_log = list(self.backend.log)
             res.launch_kinds = list(self.backend.kinds)
             res.decisions = self.decisions
